@@ -426,6 +426,8 @@ func (propC04) Judge(sc *Scenario) *Verdict {
 		if r.Err == "" {
 			v.NotJudged = "faulty line accepted (whether it should be rejected is not decided here)"
 			v.stat("probe.fault-accepted:" + p.Fault.Kind)
+		} else if p.Fault.Expect == "positional conversion" || p.Fault.Expect == "handler error" {
+			// rejected, and the statement names no type for it
 		} else if p.Fault.Expect == "injected" {
 			if r.Err != "injected" || (p.Fault.Callee != nil && !injectedIs(r, p.Fault.Callee.ID)) {
 				v.fail("c04:command-error-not-returned-unchanged", fmt.Sprintf("Execute/handler failed with injected error #%d; ParseArgs must return it unchanged, got %s/%s %q (argv=%q)", p.Fault.Callee.ID, r.Err, r.ErrType, clip(string(r.Msg), 200), argv))
